@@ -31,6 +31,29 @@ enum Op {
     Settle,
 }
 
+fn parse_op(t: &str) -> Option<Op> {
+    let nums: Vec<usize> = t.split(|c: char| !c.is_ascii_digit()).filter(|x| !x.is_empty()).filter_map(|x| x.parse().ok()).collect();
+    if t.starts_with("Announce") {
+        Some(Op::Announce(nums[0] as u64, nums[1]))
+    } else if t.starts_with("Fetched") {
+        Some(Op::Fetched(nums[0] as u64, nums[1]))
+    } else if t.starts_with("Failed") {
+        Some(Op::Failed(nums[0] as u64, nums[1]))
+    } else if t.starts_with("Updated") {
+        Some(Op::Updated(nums[0]))
+    } else if t == "Select" {
+        Some(Op::Select)
+    } else if t == "Settle" {
+        Some(Op::Settle)
+    } else {
+        None
+    }
+}
+
+fn wit(batch: usize, trace: &[String]) -> serde_json::Value {
+    json!({"kind":"fetch-ops","batch": batch, "trace": trace})
+}
+
 struct Universe {
     b: Builder,
     /// candidate blocks: (hash, id, bytes); index 0.. ; the last ones are "unknown" hashes that no peer can serve
@@ -72,6 +95,8 @@ struct Run {
     model: Model,
     trace: Vec<String>,
     peers: Vec<u64>,
+    /// set while the drain phase runs: the witness is then the trace so far followed by "Drain"
+    draining: bool,
 }
 
 async fn new_run(u: &Universe, batch: usize) -> Run {
@@ -96,10 +121,15 @@ async fn new_run(u: &Universe, batch: usize) -> Run {
         model: Model { batch, in_flight: BTreeMap::new(), requests: BTreeMap::new(), waiting: BTreeMap::new(), announced: BTreeSet::new(), arrived: BTreeSet::new(), failures: BTreeMap::new() },
         trace: vec![],
         peers,
+        draining: false,
     }
 }
 
 impl Run {
+    fn witness(&self) -> serde_json::Value {
+        json!({"kind":"fetch-ops","batch": self.model.batch, "trace": self.trace})
+    }
+
     fn enabled(&self) -> Vec<Op> {
         let mut v = vec![Op::Select, Op::Settle];
         for p in &self.peers {
@@ -128,8 +158,19 @@ impl Run {
     }
 
     async fn apply(&mut self, op: &Op, rep: &mut Report) -> bool {
-        self.trace.push(format!("{:?}", op));
-        let witness = json!({"kind":"fetch-ops","batch": self.model.batch, "trace": self.trace});
+        if !self.draining {
+            self.trace.push(format!("{:?}", op));
+        }
+        // the bounded-progress clock of a peer restarts whenever something other than a selection
+        // round or queued work touches that peer's queue
+        match op {
+            Op::Announce(p, _) | Op::Fetched(p, _) | Op::Failed(p, _) => {
+                let p = *p;
+                self.model.waiting.retain(|k, _| k.0 != p);
+            }
+            Op::Updated(_) => self.model.waiting.clear(),
+            _ => {}
+        }
         let res = match op {
             Op::Announce(p, i) => {
                 let (h, id, _) = self.u_blocks[*i].clone();
@@ -181,7 +222,7 @@ impl Run {
                     }
                     match self.node.step(p[0]).await {
                         Ok(_) => {
-                            if !self.observe(op, rep, &witness, false).await {
+                            if !self.observe(op, rep, false).await {
                                 return false;
                             }
                         }
@@ -195,14 +236,15 @@ impl Run {
             }
         };
         if let Err(p) = res {
-            rep.violation(&format!("C16|clause=panic|{}", p.signature()), &format!("{} (batch {}, trace {:?})", p.message, self.model.batch, self.trace.iter().rev().take(12).collect::<Vec<_>>()), witness);
+            rep.violation(&format!("C16|clause=panic|{}", p.signature()), &format!("{} (batch {}, trace {:?})", p.message, self.model.batch, self.trace.iter().rev().take(12).collect::<Vec<_>>()), self.witness());
             return false;
         }
-        self.observe(op, rep, &witness, matches!(op, Op::Select)).await
+        self.observe(op, rep, matches!(op, Op::Select)).await
     }
 
     /// judge the fetch requests that reached the I/O boundary since the last call
-    async fn observe(&mut self, op: &Op, rep: &mut Report, witness: &serde_json::Value, selection_round: bool) -> bool {
+    async fn observe(&mut self, op: &Op, rep: &mut Report, selection_round: bool) -> bool {
+        let batch = self.model.batch;
         // which blocks does the node hold now (arrived by whatever route)?
         {
             let chain = self.node.chain.read().await;
@@ -235,7 +277,7 @@ impl Run {
                 rep.violation(
                     "C16|clause=same-block-in-flight-twice",
                     &format!("block {} requested from peer {} while a request for it is still in flight (batch {}, trace {:?})", r.block_id, r.peer, self.model.batch, self.trace.iter().rev().take(12).collect::<Vec<_>>()),
-                    witness.clone(),
+                    wit(batch, &self.trace),
                 );
                 return false;
             }
@@ -249,7 +291,7 @@ impl Run {
                     rep.violation(
                         "C16|clause=in-flight-exceeds-batch-size|cause=slot-freed-while-fetch-outstanding",
                         &format!("{} fetches in flight for peer {} with batch size {}: {} of them are for blocks that arrived by another route while the fetch was outstanding (latest op first: {:?})", set.len(), r.peer, self.model.batch, stale, self.trace.iter().rev().take(14).collect::<Vec<_>>()),
-                        witness.clone(),
+                        wit(batch, &self.trace),
                     );
                 } else {
                     let desc: Vec<String> = set.iter().map(|h| { let b = self.u_blocks.iter().find(|b| &b.0 == h).unwrap(); format!("id{}{}{}", b.1, if b.2.is_none() {"(unserved)"} else {""}, if self.model.arrived.contains(h) {"(arrived)"} else {""}) }).collect();
@@ -257,7 +299,7 @@ impl Run {
                     rep.violation(
                         "C16|clause=in-flight-exceeds-batch-size",
                         &format!("{} fetches in flight for peer {} with batch size {} (latest op first: {:?})", set.len(), r.peer, self.model.batch, self.trace.iter().rev().take(14).collect::<Vec<_>>()),
-                        witness.clone(),
+                        wit(batch, &self.trace),
                     );
                     return false;
                 }
@@ -269,7 +311,7 @@ impl Run {
                 rep.violation(
                     "C16|clause=heights-not-ascending-in-round",
                     &format!("peer {}: block {} requested after block {} in one selection round (latest op first: {:?})", r.peer, r.block_id, lh, self.trace.iter().rev().take(12).collect::<Vec<_>>()),
-                    witness.clone(),
+                    wit(batch, &self.trace),
                 );
                 return false;
             }
@@ -283,7 +325,7 @@ impl Run {
                 rep.violation(
                     "C16|clause=unbounded-retries",
                     &format!("block {} requested {} times from peer {} after {} failures", r.block_id, n, r.peer, self.model.failures.get(&(r.peer, r.hash)).unwrap_or(&0)),
-                    witness.clone(),
+                    wit(batch, &self.trace),
                 );
                 return false;
             }
@@ -303,7 +345,7 @@ impl Run {
                     rep.violation(
                         "C16|clause=lower-block-passed-over",
                         &format!("peer {}: block {} (announced {} rounds ago, never requested) passed over for block {} (latest op first: {:?})", p, id, waited, max_h, self.trace.iter().rev().take(12).collect::<Vec<_>>()),
-                        witness.clone(),
+                        wit(batch, &self.trace),
                     );
                     return false;
                 }
@@ -333,21 +375,88 @@ impl Run {
                             && self.u_blocks.iter().find(|b| &b.0 == h).unwrap().1 <= my_id
                             && self.model.requests.contains_key(&(p, *h))
                     });
+                    let lower = self.model.announced.iter().filter(|(pp, h)| *pp == p && *h != k.1 && self.u_blocks.iter().find(|b| &b.0 == h).unwrap().1 <= my_id).count() as u64
+                        + self.model.requests.keys().filter(|(pp, h)| *pp == p && !self.model.announced.contains(&(*pp, *h)) && self.u_blocks.iter().find(|b| &b.0 == h).unwrap().1 <= my_id).count() as u64;
                     if free && !blocked {
                         let w = self.model.waiting.entry(k).or_insert(0);
                         *w += 1;
                         rep.max("rounds_waited", *w);
-                        if *w > 3 {
+                        // every entry of lower or equal height that the peer's queue may still
+                        // hold (failed, or for a block that meanwhile arrived) costs at most two
+                        // quiet rounds: Failed -> Queued, Queued -> requested or dropped
+                        if *w > 3 + 2 * lower {
                             let id = self.u_blocks.iter().find(|b| b.0 == k.1).unwrap().1;
                             rep.violation(
                                 "C16|clause=announced-block-never-requested",
                                 &format!("peer {}: block {} announced, still missing, peer has a free slot, yet not requested after {} selection rounds (latest op first: {:?})", p, id, w, self.trace.iter().rev().take(14).collect::<Vec<_>>()),
-                                witness.clone(),
+                                wit(batch, &self.trace),
                             );
                             return false;
                         }
                     }
                 }
+            }
+        }
+        true
+    }
+}
+
+impl Run {
+    /// Bounded "eventually": the adversary stops; every selection round is followed by the
+    /// completion of everything in flight (real blocks are served, unserved hashes fail) and by
+    /// the queued work. Within the bound every announced block a peer can serve must have reached
+    /// the node (chain or mempool queue).
+    async fn drain(&mut self, rep: &mut Report) -> bool {
+        let fakes = self.model.announced.iter().filter(|(_, h)| self.u_blocks.iter().find(|b| &b.0 == h).unwrap().2.is_none()).count() as u64
+            + self.model.requests.keys().filter(|k| !self.model.announced.contains(*k) && self.u_blocks.iter().find(|b| b.0 == k.1).unwrap().2.is_none()).count() as u64;
+        let bound = 2 * (501 * fakes + self.model.announced.len() as u64 + self.u_blocks.len() as u64) + 20;
+        let mut quiet = 0;
+        let mut rounds = 0;
+        self.trace.push("Drain".to_string());
+        self.draining = true;
+        while rounds < bound {
+            rounds += 1;
+            let before: u64 = self.model.requests.values().sum();
+            if !self.apply(&Op::Select, rep).await {
+                return false;
+            }
+            let flying: Vec<(u64, Hash)> = self.model.in_flight.iter().flat_map(|(p, s)| s.iter().map(move |h| (*p, *h))).collect();
+            for (p, h) in flying {
+                let i = self.u_blocks.iter().position(|b| b.0 == h).unwrap();
+                let op = if self.u_blocks[i].2.is_some() { Op::Fetched(p, i) } else { Op::Failed(p, i) };
+                if !self.apply(&op, rep).await {
+                    return false;
+                }
+            }
+            if !self.apply(&Op::Settle, rep).await {
+                return false;
+            }
+            let after: u64 = self.model.requests.values().sum();
+            quiet = if after == before { quiet + 1 } else { 0 };
+            let missing = self.model.announced.iter().any(|(_, h)| !self.model.arrived.contains(h) && self.u_blocks.iter().find(|b| &b.0 == h).unwrap().2.is_some());
+            if !missing && quiet >= 4 {
+                break;
+            }
+        }
+        self.draining = false;
+        rep.max("drain_rounds", rounds);
+        rep.count("drain_phases");
+        let batch = self.model.batch;
+        for (p, h) in self.model.announced.clone() {
+            let b = self.u_blocks.iter().find(|b| b.0 == h).unwrap().clone();
+            if b.2.is_some() {
+                rep.count("drain_announced_served_blocks");
+                if !self.model.arrived.contains(&h) {
+                    rep.violation(
+                        "C16|clause=announced-block-never-requested|phase=drain",
+                        &format!("peer {}: block {} was announced and can be served, every fetch was answered, yet after {} quiet selection rounds (bound {}) the node neither holds nor requests it", p, b.1, rounds, bound),
+                        wit(batch, &self.trace),
+                    );
+                    return false;
+                }
+            } else {
+                let n = self.model.requests.get(&(p, h)).cloned().unwrap_or(0);
+                rep.max("drain_requests_of_unserved_block", n);
             }
         }
         true
@@ -404,6 +513,30 @@ pub async fn run(ctx: &Ctx, rep: &mut Report) {
     let mut rng = ctx.rng();
     let mut urng = Rng::new(ctx.seed ^ 0x16);
     let u = universe(&mut urng, 3, 1).await;
+    if let Some(path) = &ctx.replay {
+        let big = universe(&mut urng, 12, 3).await;
+        let text = std::fs::read_to_string(path).expect("replay file");
+        let v: serde_json::Value = serde_json::from_str(&text).expect("replay json");
+        let r = &v["replay"];
+        let ops: Vec<Op> = r["trace"].as_array().map(|a| a.iter().filter_map(|x| parse_op(x.as_str().unwrap_or(""))).collect()).unwrap_or_default();
+        let drains = r["trace"].as_array().map(|a| a.iter().any(|x| x.as_str() == Some("Drain"))).unwrap_or(false);
+        let uses_big = ops.iter().any(|o| match o {
+            Op::Announce(_, i) | Op::Fetched(_, i) | Op::Failed(_, i) | Op::Updated(i) => *i >= u.blocks.len(),
+            _ => false,
+        });
+        let mut run = new_run(if uses_big { &big } else { &u }, r["batch"].as_u64().unwrap_or(1) as usize).await;
+        rep.eval();
+        for op in &ops {
+            if !run.apply(op, rep).await {
+                return;
+            }
+        }
+        if drains && !run.drain(rep).await {
+            return;
+        }
+        rep.note("replay: no clause fired");
+        return;
+    }
     // ---- bounded exhaustive over a small universe (2 peers, 3 real + 1 unserved hash)
     rep.exhaustive = true;
     for batch in [1usize, 2] {
@@ -433,6 +566,11 @@ pub async fn run(ctx: &Ctx, rep: &mut Report) {
                 return;
             }
         }
+        let head: Vec<String> = run.trace.iter().take(40).cloned().collect();
+        if !run.drain(rep).await {
+            return;
+        }
+        run.trace = head;
         rep.nontrivial(&format!("rand|{}|{:?}", batch, run.trace.iter().take(30).collect::<Vec<_>>()));
         if rep.samples.len() < 2 {
             rep.sample(json!({"batch": batch, "ops": run.trace.iter().take(40).collect::<Vec<_>>()}));
